@@ -63,8 +63,8 @@ def rows_of(table, column, conv_idx, shift=0):
             rows.append([])
         else:
             row = [None, None]
-            row[column] = cell_for(conv_idx, c)
-            row[1 - column] = other
+            row[column % 2] = cell_for(conv_idx, c)     # column may be a negative index (-1 = last, -2 = first of two)
+            row[1 - column % 2] = other
             rows.append(row)
     return rows
 
@@ -92,7 +92,7 @@ def check_file(conv_idx, op, table, column, header, sep, strict, passthrough, am
     fails = []
     conv = CONVERTERS[conv_idx]()
     rows = rows_of(table, column, conv_idx, shift)
-    head = ['h"1', "h 2"] if header != "multiline" else ["\ufeffmulti\nline", 'q"']
+    head = ["#h1", "h 2"] if header == "hash" else ['h"1', "h 2"] if header != "multiline" else ["\ufeffmulti\nline", 'q"']
     path = os.path.join(tmpdir(), f"{os.getpid()}.tsv")
     with open(path, "w", newline="", encoding="utf-8") as fh:
         w = csv.writer(fh, delimiter=sep)
@@ -105,7 +105,7 @@ def check_file(conv_idx, op, table, column, header, sep, strict, passthrough, am
     # what the scalar calls say, row by row (a short/blank row is a malformed cell when the column does not exist)
     expected, first_fail = [], None
     for i, r in enumerate(rows):
-        if len(r) <= column:
+        if not -len(r) <= column < len(r):
             first_fail = (i, IndexError)
             break
         try:
@@ -155,7 +155,7 @@ def check_file(conv_idx, op, table, column, header, sep, strict, passthrough, am
             kind = "header-not-preserved"
         elif len(got) != len(want):
             kind = "row-count-changed"
-        elif any(len(g) == len(x) and g[column:column + 1] != x[column:column + 1] for g, x in zip(got, want) if len(x) > column):
+        elif any(len(g) == len(x) and g[column] != x[column] for g, x in zip(got[1 if header else 0:], want[1 if header else 0:]) if -len(x) <= column < len(x)):
             kind = "converted-column-differs-from-scalar-calls"
         else:
             kind = "other-columns-not-preserved"
@@ -260,9 +260,24 @@ def tables(tier):
 FLAGS = list(it.product((False, True), repeat=3))
 
 
+def extra_file_cases():
+    """Second, smaller table set with more dimensions: negative column indexes, a header and cells that start with '#'."""
+    X = ["http://x/1", "zz:1", "#a:1", "a:1", SHORT, BLANK]
+    tabs = [()] + [(c,) for c in CELLS + ["#a:1", "#http://x/1", "#"]] + list(it.product(X, repeat=2))
+    for table in tabs:
+        for op in ("file_compress", "file_expand"):
+            for column in (-1, -2, 0, 1):
+                for header in (True, False, "multiline", "hash"):
+                    if column >= 0 and header != "hash" and not any(str(c).startswith("#") for c in table):
+                        continue   # covered by the main table set
+                    for strict, passthrough, ambiguous in FLAGS:
+                        yield 0, op, list(table), column, header, "\t", strict, passthrough, ambiguous
+
+
 def units(tier, seed):
     T = tables(tier)
     us = [{"kind": "file", "tier": tier, "tables": ch} for ch in chunks(T, 96)]
+    us += [{"kind": "file-extra", "part": i, "of": 8} for i in range(8)]
     us += [{"kind": "pd", "tier": tier, "part": i, "of": 32} for i in range(32)]
     us.append({"kind": "history"})
     return us
@@ -303,6 +318,17 @@ def run_unit(unit, ctx):
                     args = [op, passthrough, ambiguous]
                     for sig, msg in check_history(*args, ctx=ctx)[:2]:
                         ctx.violation("C16/" + sig, msg, {"kind": "history", "args": args})
+        return
+    if unit["kind"] == "file-extra":
+        for i, args in enumerate(extra_file_cases()):
+            if i % unit["of"] != unit["part"]:
+                continue
+            ctx.count("file_extra_cases")
+            fails = check_file(*args, ctx=ctx)
+            if fails:
+                case = {"kind": "file", "args": list(args)}
+                for sig, msg in fails[:2]:
+                    ctx.violation("C16/" + sig, msg, case)
         return
     if unit["kind"] == "file":
         for table in unit["tables"]:
